@@ -6,6 +6,30 @@
 
 (* "P <prelude> <line>" (harness/cmd/edittrace/round4.go): calls made before the case.  The model's
    functions have no state: the prelude is dropped, the case replayed and judged as if alone. *)
+(* Round 5 (harness/cmd/edittrace/round5.go): "S ..." is the L line once more, for inputs too long
+   for the extracted model (its lists are indexed by position: the cost grows with the cube of the
+   length).  Above 65 x 130 elements such a line is NOT replayed on the model: [eval] hands back the
+   implementation's own record (read from the trace files before the main loop starts), so that the
+   generic loop has nothing to compare, and [spec] alone judges it -- all clauses of C11 on the
+   script as returned, with the LCS table written on arrays.  "P ...@j:call... <line>": a call made
+   from inside the case's own eq; dropped like every prelude.  Element types b w z p (identity on
+   codes, mode 0) and g (float32, mode -5) reach the model as codes like the others. *)
+let echo : (string, string) Hashtbl.t = Hashtbl.create 4096
+let () =
+  Array.iteri (fun i f ->
+    if i > 0 && String.length f > 0 && f.[0] <> '-' && Sys.file_exists f && not (Sys.is_directory f) then begin
+      let ic = open_in f in
+      (try while true do
+        let line = input_line ic in
+        if String.length line > 2 && line.[0] = 'S' && line.[1] = ' ' then begin
+          let (inp, out) = split_line line in Hashtbl.replace echo inp out
+        end
+      done with End_of_file -> ());
+      close_in ic
+    end) Sys.argv
+let echo_of inp = match Hashtbl.find_opt echo inp with Some o -> o | None -> "NOT-REPLAYED"
+let model_fits la lb = min la lb <= 65 && max la lb <= 130
+
 let strip_p inp =
   match words (String.map (fun c -> if c = '_' then ' ' else c) inp) with
   | "P" :: _ :: rest -> String.concat " " rest
@@ -90,10 +114,10 @@ type lline = { mode : int; l : int list; r : int list; lx : int list; rx : int l
                lbase : int; rbase : int  (* index of lhs[0] / rhs[0] in its array *) }
 let parse_l inp =
   match words inp with
-  | ["L"; mode; _; "E"; l; r; lx; rx] ->
+  | [("L" | "S"); mode; _; "E"; l; r; lx; rx] ->
     let l = ints_of l and r = ints_of r and lx = ints_of lx and rx = ints_of rx in
     Some { mode = int_of_string mode; l; r; lx; rx; larr = [555; 555] @ l @ lx; rarr = [666; 666] @ r @ rx; same = false; lbase = 2; rbase = 2 }
-  | ["L"; mode; _; "A"; arr; a; b; c; d; cl] ->
+  | [("L" | "S"); mode; _; "A"; arr; a; b; c; d; cl] ->
     let arr = ints_of arr and a = int_of_string a and b = int_of_string b
     and c = int_of_string c and d = int_of_string d in
     let win lo hi = take (hi - lo) (drop lo arr) in
@@ -125,12 +149,13 @@ let eval_l inp =
   match parse_l inp with
   | None -> "?"
   | Some q ->
+    if inp.[0] = 'S' && not (model_fits (List.length q.l) (List.length q.r)) then echo_of inp else
     (match M.edit_script_run_cap (eq_for q.mode) q.lx q.rx q.l q.r with
      | M.EOk es -> show_long q es
      | M.EPanic -> "PANIC index"
      | M.EOutOfFuel -> "FUEL")
 
-let eval inp = let inp = strip_p inp in if String.length inp > 1 && inp.[0] = 'L' then eval_l inp else eval inp
+let eval inp = let inp = strip_p inp in if String.length inp > 1 && (inp.[0] = 'L' || inp.[0] = 'S') then eval_l inp else eval inp
 
 (* "<edits> / <lhs> / <rhs>" *)
 let split3 out =
@@ -169,13 +194,17 @@ let offsets_of (es : int M.edit list) =
 let lcs_len eq l r =
   let a = Array.of_list l and b = Array.of_list r in
   let m = Array.length a and n = Array.length b in
-  let t = Array.make_matrix (m + 1) (n + 1) 0 in
+  (* row by row: only the previous row is ever read *)
+  let p = ref (Array.make (n + 1) 0) and c = ref (Array.make (n + 1) 0) in
   for i = 1 to m do
+    let t = !p in p := !c; c := t;
+    let p = !p and c = !c in
+    c.(0) <- 0;
     for j = 1 to n do
-      t.(i).(j) <- if eq a.(i-1) b.(j-1) then t.(i-1).(j-1) + 1 else max t.(i-1).(j) t.(i).(j-1)
+      c.(j) <- if eq a.(i-1) b.(j-1) then p.(j-1) + 1 else max p.(j) c.(j-1)
     done
   done;
-  t.(m).(n)
+  (!c).(n)
 
 (* the clauses of C11 on a script given as values, with the places its X and Y alias *)
 let check_script eq l r (parsed : (int M.edit * string * string) list) =
